@@ -1,12 +1,12 @@
 SPECIFICATION Spec
-CONSTANT Units = {"RL11", "RL10", "HC1", "HTC", "HEX", "HF", "HNC", "K0", "K1", "NL", "B"}
-CONSTANT MaxD = 2
+CONSTANT Units = {"RL11", "RL10", "HC1", "HEX", "NL", "B"}
+CONSTANT MaxD = 3
 CONSTANT MaxReq = 2
-CONSTANT MaxHdr = 2
+CONSTANT MaxHdr = 1
 CONSTANT MaxBuf = 3
-CONSTANT MaxSent = 14
+CONSTANT MaxSent = 11
 CONSTANT NDs = {1}
 CONSTRAINT Bound
 VIEW View
-INVARIANT SegInv
 CHECK_DEADLOCK FALSE
+INVARIANT SegInv
